@@ -753,7 +753,11 @@ func main() {
 			"exhaustive":           false,
 			"rule":                 "one case = one symbolic execution of a harness for a concrete shape; all nondet inputs are SMT variables; every VC is decided by the solver",
 		},
-		"assumptions": ps.Assumptions,
+		"assumptions": append([]string{
+			"gosym interprets go/ssa of /repo's current tree; its semantics are cross-checked on every run by replaying solver models natively and comparing observed values",
+			"int/uint/uintptr are 64 bits (gc/amd64); append growth gives capacity exactly the new length",
+			"SMT solver answers (z3 4.8.12 by default) are trusted; any (error, unknown or timeout makes the run inconclusive, never a pass",
+		}, ps.Assumptions...),
 	}
 	b, _ := json.MarshalIndent(ev, "", " ")
 	os.WriteFile(filepath.Join(*outDir, *prop+".json"), b, 0o644)
